@@ -21,7 +21,7 @@ func init() {
 
 func runC07(c *Ctx) {
 	c.Rule("R07a", "delimiter agreement: in every file template each `.Cmd` is printed directly followed by the scanner delimiter constant (\";\" or $.Delimiter) and a newline", 6)
-	c.Rule("R07b", "comment lines cannot inject: every migrate.Change.Comment built by the three planners is a constant or fmt.Sprintf whose dynamic arguments use %q / %d / %T (a %s fed by a function literal returning only constants is accepted)", 35)
+	c.Rule("R07b", "comment lines cannot inject: every migrate.Change.Comment built by the three planners is a constant or fmt.Sprintf whose dynamic arguments use %q / %d / %T (a %s fed by a function literal returning only constants is accepted)", 20)
 	c.Rule("R07c", "pragma filters are anchored: each regexp used as a line filter in sql/sqltool matches only at the beginning of the line and every top-level alternative starts with the tool's pragma literal", 2)
 	c.Rule("R07d", "escape/scan agreement: a dialect whose literal-quoting helper produces backslash escapes (strconv.Quote) scans statements with BackslashEscapes: true", 1)
 	c.Rule("R07e", "quoting helpers neutralise their own delimiter: the string written between quotes is first passed through an escaping call (ReplaceAll of the quote / strconv.Quote)", 4)
@@ -284,7 +284,7 @@ func checkComments(c *Ctx) {
 				if idx > 1 {
 					key += "#" + itoa(idx)
 				}
-				ok, why := safeComment(info, val)
+				ok, why := safeComment(info, val, fi.Decl.Body)
 				c.Check("R07b", key, val.Pos(), ok, "the comment %s %s: a newline in it would turn the rest into an executable line of the migration file", types.ExprString(val), why)
 				return true
 			})
@@ -299,7 +299,7 @@ func itoa(i int) string {
 	return itoa(i/10) + string(rune('0'+i%10))
 }
 
-func safeComment(info *types.Info, e ast.Expr) (bool, string) {
+func safeComment(info *types.Info, e ast.Expr, body ast.Node) (bool, string) {
 	if _, ok := stringConst(info, e); ok {
 		return true, ""
 	}
@@ -345,6 +345,47 @@ func safeComment(info *types.Info, e ast.Expr) (bool, string) {
 					if allConst {
 						continue
 					}
+				}
+			}
+			// accepted: a local variable that only ever holds constants
+			if id, ok := ast.Unparen(arg).(*ast.Ident); ok && body != nil {
+				obj := info.ObjectOf(id)
+				defs, consts := 0, 0
+				ast.Inspect(body, func(k ast.Node) bool {
+					switch x := k.(type) {
+					case *ast.AssignStmt:
+						for j, l := range x.Lhs {
+							if lid, isID := l.(*ast.Ident); isID && info.ObjectOf(lid) == obj {
+								defs++
+								if len(x.Rhs) == len(x.Lhs) {
+									if _, isConst := stringConst(info, x.Rhs[j]); isConst {
+										consts++
+									}
+								}
+							}
+						}
+					case *ast.ValueSpec:
+						for j, nm := range x.Names {
+							if info.ObjectOf(nm) == obj {
+								defs++
+								if j < len(x.Values) {
+									if _, isConst := stringConst(info, x.Values[j]); isConst {
+										consts++
+									}
+								}
+							}
+						}
+					case *ast.UnaryExpr:
+						if x.Op == token.AND {
+							if xid, isID := ast.Unparen(x.X).(*ast.Ident); isID && info.ObjectOf(xid) == obj {
+								defs += 100 // address taken: give up
+							}
+						}
+					}
+					return true
+				})
+				if _, isVar := obj.(*types.Var); isVar && defs > 0 && defs == consts && obj.Pos() >= body.Pos() && obj.Pos() <= body.End() {
+					continue
 				}
 			}
 			// non-string operands cannot carry a newline
